@@ -300,7 +300,7 @@ def main():
         "coverage": {
             "obligations": b.get("obligations", 0),
             "discharged": b.get("discharged", 0),
-            "checker_cmd": f"cd lean && lake build Tfv.Props.{prop_id} tfv-driver && lake env lean .audit/{prop_id}.lean"
+            "checker_cmd": "cd lean && lake build " + " ".join("Tfv.Props." + m for m in leanbuild.prop_modules(prop_id)) + f" tfv-driver && lake env lean .audit/{prop_id}.lean"
                 + (f" && lake env leanchecker Tfv.Props.{prop_id}" if tier == "thorough" else ""),
             "trusted_base": TRUSTED_BASE + getattr(mod, "TRUSTED", []),
             "axioms": b.get("theorems", {}),
